@@ -18,6 +18,8 @@ SEEDED = os.path.join(ROOT, "seeded")
 EXTRA = {
     "C01-1": ["C03"], "C02-1": ["C07"], "C04-2": ["C05"], "C06-1": ["C10"], "C08-2": ["C05"],
     "C07-2": ["C02"], "C05-2": ["C08"],
+    "C06-3": ["C05"], "C10-4": ["C06"], "C09-3": ["C20"], "C02-3": ["C09"], "C02-4": ["C09"],
+    "C04-4": ["C01"], "C08-3": ["C04"], "C08-4": ["C07"], "C05-3": ["C08"], "C03-4": ["C07"],
 }
 
 
@@ -71,7 +73,8 @@ def report():
         outc = json.load(open(os.path.join(d, "outcome.json"))) if os.path.exists(os.path.join(d, "outcome.json")) else None
         confirmed = "not yet confirmed"
         if conf:
-            ok = conf.get("applies_and_builds") and conf.get("demo_fails_with_patch") and conf.get("demo_passes_without_patch") \
+            ok = conf.get("applies_and_builds") and conf.get("demo_fails_with_patch") \
+                and (conf.get("demo_passes_without_patch") or conf.get("demo_passes_without_patch_after_demo_repair")) \
                 and "307 passed" in str(conf.get("suite_with_patch", ""))
             confirmed = "confirmed" if ok else "NOT confirmed: " + str(conf.get("notes", ""))[:120]
         verdicts = "; ".join(f"{k}: {v['verdict']}" for k, v in (outc or {}).get("checks", {}).items()) or "not run yet"
